@@ -1,7 +1,7 @@
 //! C20 — accessors, conversions, comparisons (all scalars).
-use lexpr::{Number, Value};
+use lexpr::{Cons, Number, Value};
 
-fn kinds(v: &Value) -> u32 {
+pub fn kinds(v: &Value) -> u32 {
     (v.is_nil() as u32)
         + (v.is_null() as u32)
         + (v.is_boolean() as u32)
@@ -15,32 +15,359 @@ fn kinds(v: &Value) -> u32 {
         + (v.is_vector() as u32)
 }
 
+/// is_x agrees with as_x for a value known not to be a number/name/bytes/cons/vector payload carrier.
+fn none_of_numeric(v: &Value) {
+    assert!(v.as_i64().is_none() && v.as_u64().is_none() && v.as_f64().is_none());
+    assert!(!v.is_i64() && !v.is_u64() && !v.is_f64() && !v.is_number() && v.as_number().is_none());
+}
+
+fn none_of_names(v: &Value) {
+    assert!(v.as_str().is_none() && v.as_symbol().is_none() && v.as_keyword().is_none());
+    assert!(v.as_name().is_none());
+    assert!(!v.is_string() && !v.is_symbol() && !v.is_keyword());
+}
+
+fn none_of_misc(v: &Value, except: u8) {
+    if except != 1 { assert!(v.as_bool().is_none() && !v.is_boolean()); }
+    if except != 2 { assert!(v.as_char().is_none() && !v.is_char()); }
+    if except != 3 { assert!(v.as_bytes().is_none() && !v.is_bytes()); }
+    if except != 4 { assert!(v.as_cons().is_none() && v.as_pair().is_none() && !v.is_cons()); }
+    if except != 5 { assert!(v.as_slice().is_none() && !v.is_vector()); }
+    if except != 6 { assert!(v.as_nil().is_none() && !v.is_nil()); }
+    if except != 7 { assert!(v.as_null().is_none() && !v.is_null()); }
+}
+
+fn check_int_value(v: &Value, math_neg: bool, mag: u64) {
+    // v holds the integer (-1)^math_neg * mag  (mag != 0 if math_neg)
+    assert!(kinds(v) == 1 && v.is_number() && v.as_number().is_some());
+    none_of_names(v);
+    none_of_misc(v, 0);
+    assert!(!v.is_f64());
+    if math_neg {
+        // value in [-2^63, -1]
+        assert!(v.as_u64().is_none() && !v.is_u64());
+        let exp = (mag as i64).wrapping_neg();
+        assert!(v.as_i64() == Some(exp) && v.is_i64());
+        assert!(v.as_f64() == Some(exp as f64));
+    } else {
+        assert!(v.as_u64() == Some(mag) && v.is_u64());
+        if mag <= i64::MAX as u64 {
+            assert!(v.as_i64() == Some(mag as i64) && v.is_i64());
+        } else {
+            assert!(v.as_i64().is_none() && !v.is_i64());
+        }
+        assert!(v.as_f64() == Some(mag as f64));
+    }
+}
+
+/// From<u64>: payload preserved, as_i64 only within i64 range, never a float; == with u64 and i64 in both orders.
+/// @bound all 2^64 u64 payloads x all u64 and i64 comparands
+/// @encodes Value::from<u64>, Number::as_i64, Number::as_u64, Number::as_f64, partial_eq::eq_i64, partial_eq::eq_u64
 #[kani::proof]
 fn c20_u64() {
     let n: u64 = kani::any();
     let v = Value::from(n);
-    assert!(kinds(&v) == 1 && v.is_number());
-    assert!(v.as_u64() == Some(n));
-    assert!(v.is_u64());
-    if n <= i64::MAX as u64 {
-        assert!(v.as_i64() == Some(n as i64));
-        assert!(v.is_i64());
-    } else {
-        assert!(v.as_i64().is_none());
-        assert!(!v.is_i64());
-    }
-    assert!(!v.is_f64());
-    assert!(v.as_f64() == Some(n as f64));
-    assert!(v.as_name().is_none());
-    // comparisons, both operand orders
+    check_int_value(&v, false, n);
     let m: u64 = kani::any();
     assert!((v == m) == (n == m));
     assert!((m == v) == (n == m));
+    assert!((&v == m) == (n == m));
     let s: i64 = kani::any();
     let exp = s >= 0 && (s as u64) == n;
     assert!((v == s) == exp);
     assert!((s == v) == exp);
+    // oracle form of the property: same answer as comparing with as_i64()/as_u64()
+    assert!((v == s) == v.as_i64().map_or(false, |x| x == s));
+    assert!((v == m) == v.as_u64().map_or(false, |x| x == m));
     kani::cover!(n > i64::MAX as u64 && v == m);
     kani::cover!(v == s);
     core::mem::forget(v);
+}
+
+/// From<i64>: non-negative payloads are also u64, negative ones never; i64::MIN included; cross-sign ==.
+/// @bound all 2^64 i64 payloads x all u64 and i64 comparands
+/// @encodes Value::from<i64>, Number::from<i64>, partial_eq
+#[kani::proof]
+fn c20_i64() {
+    let n: i64 = kani::any();
+    let v = Value::from(n);
+    check_int_value(&v, n < 0, n.unsigned_abs());
+    let s: i64 = kani::any();
+    assert!((v == s) == (n == s));
+    assert!((s == v) == (n == s));
+    let m: u64 = kani::any();
+    let exp = n >= 0 && (n as u64) == m;
+    assert!((v == m) == exp);
+    assert!((m == v) == exp);
+    // an integer is never equal to a float through as_f64 oracle mismatch: == f64 follows as_f64
+    let f: f64 = kani::any();
+    assert!((v == f) == v.as_f64().map_or(false, |x| x == f));
+    assert!((f == v) == v.as_f64().map_or(false, |x| x == f));
+    kani::cover!(n == i64::MIN);
+    kani::cover!(n < 0 && v == s);
+    kani::cover!(n >= 0 && v == m);
+    core::mem::forget(v);
+}
+
+macro_rules! small_signed {
+    ($ty:ty) => {{
+        let n: $ty = kani::any();
+        let v = Value::from(n);
+        check_int_value(&v, n < 0, (n as i64).unsigned_abs());
+        assert!(v.as_i64() == Some(n as i64));
+        let s: $ty = kani::any();
+        assert!((v == s) == (n == s));
+        assert!((s == v) == (n == s));
+        kani::cover!(n < 0);
+        kani::cover!(v == s);
+        core::mem::forget(v);
+    }};
+}
+macro_rules! small_unsigned {
+    ($ty:ty) => {{
+        let n: $ty = kani::any();
+        let v = Value::from(n);
+        check_int_value(&v, false, n as u64);
+        assert!(v.as_i64() == Some(n as i64));
+        let s: $ty = kani::any();
+        assert!((v == s) == (n == s));
+        assert!((s == v) == (n == s));
+        kani::cover!(v == s);
+        core::mem::forget(v);
+    }};
+}
+/// From<i8> preserves the mathematical value (never a float); == i8 in both operand orders.
+/// @bound every i8 payload x every i8 comparand
+#[kani::proof]
+fn c20_i8() {
+    small_signed!(i8);
+}
+/// From<i16> preserves the mathematical value (never a float); == i16 in both operand orders.
+/// @bound every i16 payload x every i16 comparand
+#[kani::proof]
+fn c20_i16() {
+    small_signed!(i16);
+}
+/// From<i32> preserves the mathematical value (never a float); == i32 in both operand orders.
+/// @bound every i32 payload x every i32 comparand
+#[kani::proof]
+fn c20_i32() {
+    small_signed!(i32);
+}
+/// From<u8> preserves the mathematical value (never a float); == u8 in both operand orders.
+/// @bound every u8 payload x every u8 comparand
+#[kani::proof]
+fn c20_u8() {
+    small_unsigned!(u8);
+}
+/// From<u16> preserves the mathematical value (never a float); == u16 in both operand orders.
+/// @bound every u16 payload x every u16 comparand
+#[kani::proof]
+fn c20_u16() {
+    small_unsigned!(u16);
+}
+/// From<u32> preserves the mathematical value (never a float); == u32 in both operand orders.
+/// @bound every u32 payload x every u32 comparand
+#[kani::proof]
+fn c20_u32() {
+    small_unsigned!(u32);
+}
+
+
+/// From<f64>: a float is never an integer, as_f64 returns the same bits (NaN, inf, -0 included); == f64/f32 follow as_f64.
+/// @bound all 2^64 f64 bit patterns x all f64 comparands
+/// @encodes Value::from<f64>, Number::as_f64, Number::from_f64, partial_eq::eq_f64
+#[kani::proof]
+fn c20_f64() {
+    let f: f64 = kani::any();
+    let v = Value::from(f);
+    assert!(kinds(&v) == 1 && v.is_number() && v.is_f64());
+    assert!(v.as_i64().is_none() && v.as_u64().is_none() && !v.is_i64() && !v.is_u64());
+    none_of_names(&v);
+    none_of_misc(&v, 0);
+    let g = v.as_f64();
+    assert!(g.is_some());
+    assert!(g.unwrap().to_bits() == f.to_bits());
+    let h: f64 = kani::any();
+    assert!((v == h) == (f == h));
+    assert!((h == v) == (f == h));
+    let i: i64 = kani::any();
+    assert!(!(v == i) && !(i == v));
+    let u: u64 = kani::any();
+    assert!(!(v == u) && !(u == v));
+    // Number::from_f64 accepts exactly the finite floats and keeps the bits
+    match Number::from_f64(f) {
+        Some(n) => { assert!(f.is_finite()); assert!(n.as_f64().unwrap().to_bits() == f.to_bits()); assert!(n.is_f64()); }
+        None => assert!(!f.is_finite()),
+    }
+    kani::cover!(f.is_nan());
+    kani::cover!(f == 0.0 && f.is_sign_negative());
+    kani::cover!(v == h);
+    core::mem::forget(v);
+}
+
+/// From<f32>: widened exactly; == f32 in both orders follows as_f64.
+/// @bound all 2^32 f32 bit patterns x all f32 comparands
+#[kani::proof]
+fn c20_f32() {
+    let f: f32 = kani::any();
+    let v = Value::from(f);
+    assert!(kinds(&v) == 1 && v.is_f64());
+    assert!(v.as_i64().is_none() && v.as_u64().is_none());
+    let g = v.as_f64().unwrap();
+    assert!(g.to_bits() == (f as f64).to_bits());
+    let h: f32 = kani::any();
+    assert!((v == h) == (f == h));
+    assert!((h == v) == (f == h));
+    kani::cover!(f.is_nan());
+    kani::cover!(v == h);
+    core::mem::forget(v);
+}
+
+/// bool and char payloads come back unchanged, are of exactly one kind, and compare with bool in both orders.
+/// @bound both bools, every Unicode scalar value
+#[kani::proof]
+fn c20_bool_char() {
+    let b: bool = kani::any();
+    let v = Value::from(b);
+    assert!(kinds(&v) == 1 && v.is_boolean() && v.as_bool() == Some(b));
+    none_of_numeric(&v);
+    none_of_names(&v);
+    none_of_misc(&v, 1);
+    let c: bool = kani::any();
+    assert!((v == c) == (b == c));
+    assert!((c == v) == (b == c));
+    let ch: char = kani::any();
+    let w = Value::from(ch);
+    assert!(kinds(&w) == 1 && w.is_char() && w.as_char() == Some(ch));
+    none_of_numeric(&w);
+    none_of_names(&w);
+    none_of_misc(&w, 2);
+    assert!(!(w == c) && !(c == w));
+    let i: i64 = kani::any();
+    assert!(!(w == i) && !(v == i));
+    kani::cover!(v == c);
+    kani::cover!(ch as u32 > 0xFFFF);
+    core::mem::forget(v);
+    core::mem::forget(w);
+}
+
+fn two_char_str(buf: &mut [u8; 8]) -> &str {
+    let a: char = kani::any();
+    let b: char = kani::any();
+    let n: u8 = kani::any();
+    kani::assume(n <= 2);
+    let mut len = 0;
+    if n >= 1 { len += a.encode_utf8(&mut buf[len..]).len(); }
+    if n >= 2 { len += b.encode_utf8(&mut buf[len..]).len(); }
+    core::str::from_utf8(&buf[..len]).unwrap()
+}
+
+/// Strings, symbols and keywords: as_name is Some exactly for these three; as_str/as_symbol/as_keyword are
+/// exclusive; the text comes back unchanged; == &str / str / String (both orders) follows as_str only.
+/// @bound names of 0..=2 ASCII bytes (symbolic), comparand of 0..=2 ASCII bytes
+/// @encodes Value::string, Value::symbol, Value::keyword, as_name, partial_eq::eq_str
+#[kani::proof]
+#[kani::unwind(4)]
+fn c20_names() {
+    let raw: [u8; 2] = kani::any();
+    kani::assume(raw[0] < 128 && raw[1] < 128);
+    let n: usize = kani::any();
+    kani::assume(n <= 2);
+    let s = core::str::from_utf8(&raw[..n]).unwrap();
+    let raw2: [u8; 2] = kani::any();
+    kani::assume(raw2[0] < 128 && raw2[1] < 128);
+    let n2: usize = kani::any();
+    kani::assume(n2 <= 2);
+    let t = core::str::from_utf8(&raw2[..n2]).unwrap();
+    let same = n == n2 && (n < 1 || raw[0] == raw2[0]) && (n < 2 || raw[1] == raw2[1]);
+
+    let which: u8 = kani::any();
+    kani::assume(which < 3);
+    let v = match which {
+        0 => Value::string(s),
+        1 => Value::symbol(s),
+        _ => Value::keyword(s),
+    };
+    assert!(kinds(&v) == 1);
+    none_of_numeric(&v);
+    none_of_misc(&v, 0);
+    assert!(v.is_string() == (which == 0) && v.is_symbol() == (which == 1) && v.is_keyword() == (which == 2));
+    assert!(v.as_str().is_some() == (which == 0));
+    assert!(v.as_symbol().is_some() == (which == 1));
+    assert!(v.as_keyword().is_some() == (which == 2));
+    let name = v.as_name();
+    assert!(name.is_some());
+    let nb = name.unwrap().as_bytes();
+    assert!(nb.len() == n && (n < 1 || nb[0] == raw[0]) && (n < 2 || nb[1] == raw[1]));
+    let exp = which == 0 && same;
+    assert!((v == t) == exp);
+    assert!((t == v) == exp);
+    assert!((v == *t) == exp);
+    assert!((*t == v) == exp);
+    kani::cover!(which == 0 && v == t);
+    kani::cover!(which == 1 && n == 2);
+    core::mem::forget(v);
+}
+
+/// From<&str>/From<String> make strings (never symbols); From<&[u8]>/Vec<u8> make byte vectors with the same bytes.
+/// @bound 0..=2 bytes
+#[kani::proof]
+#[kani::unwind(4)]
+fn c20_from_str_bytes() {
+    let raw: [u8; 2] = kani::any();
+    let n: usize = kani::any();
+    kani::assume(n <= 2);
+    let v = Value::from(&raw[..n]);
+    assert!(kinds(&v) == 1 && v.is_bytes());
+    none_of_numeric(&v);
+    none_of_names(&v);
+    none_of_misc(&v, 3);
+    let b = v.as_bytes().unwrap();
+    assert!(b.len() == n && (n < 1 || b[0] == raw[0]) && (n < 2 || b[1] == raw[1]));
+    let w = Value::bytes(&raw[..n]);
+    assert!(w.as_bytes().unwrap().len() == n);
+    kani::assume(raw[0] < 128 && raw[1] < 128);
+    let s = core::str::from_utf8(&raw[..n]).unwrap();
+    let x = Value::from(s);
+    assert!(x.is_string() && !x.is_symbol() && x.as_str().unwrap().len() == n);
+    assert!(x == s);
+    kani::cover!(n == 2);
+    core::mem::forget(v);
+    core::mem::forget(w);
+    core::mem::forget(x);
+}
+
+/// Nil, Null, a pair and a vector are each of exactly one kind; as_pair/as_cons/as_slice expose what was put in.
+/// @bound one cons cell / vector of 0..=1 element with symbolic integer payloads
+#[kani::proof]
+#[kani::unwind(3)]
+fn c20_structural_kinds() {
+    let nil = Value::Nil;
+    assert!(kinds(&nil) == 1 && nil.is_nil() && nil.as_nil() == Some(()));
+    none_of_numeric(&nil); none_of_names(&nil); none_of_misc(&nil, 6);
+    let null = Value::Null;
+    assert!(kinds(&null) == 1 && null.is_null() && null.as_null() == Some(()));
+    none_of_numeric(&null); none_of_names(&null); none_of_misc(&null, 7);
+    let a: i64 = kani::any();
+    let b: u64 = kani::any();
+    let p = Value::from((a, b));
+    assert!(kinds(&p) == 1 && p.is_cons());
+    none_of_numeric(&p); none_of_names(&p); none_of_misc(&p, 4);
+    let (car, cdr) = p.as_pair().unwrap();
+    assert!(car.as_i64() == Some(a) && cdr.as_u64() == Some(b));
+    let c = p.as_cons().unwrap();
+    assert!(c.car().as_i64() == Some(a) && c.cdr().as_u64() == Some(b));
+    let q = Value::cons(a, b);
+    assert!(q.as_pair().unwrap().0.as_i64() == Some(a));
+    let q2 = Value::from(Cons::new(a, b));
+    assert!(q2.as_pair().unwrap().1.as_u64() == Some(b));
+    let vec = Value::from(vec![Value::from(a)]);
+    assert!(kinds(&vec) == 1 && vec.is_vector());
+    none_of_numeric(&vec); none_of_names(&vec); none_of_misc(&vec, 5);
+    let sl = vec.as_slice().unwrap();
+    assert!(sl.len() == 1 && sl[0].as_i64() == Some(a));
+    assert!(!(p == a) && !(vec == a) && !(nil == a) && !(null == a));
+    assert!(!(nil == false) && !(null == false));
+    core::mem::forget(p); core::mem::forget(q); core::mem::forget(q2); core::mem::forget(vec);
 }
